@@ -4,7 +4,7 @@ CONSTANTS
   Evil = 3
   ClaimSet = {1}
   NoteSet = {0, 1}
-  MaxNet = 3
+  MaxNet = 2
   MaxBlobs = 2
   MaxClock = 2
   Weaken = "none"
